@@ -241,7 +241,7 @@ def inlined_body(res, fn, depth: int = 0) -> List[ast.stmt]:
     ``x = h(a)``, ``h(a)`` as a statement).  Only helpers whose body is straight-line code ending in at most one
     return are expanded; their parameters are substituted by the argument expressions and their locals renamed.
     Used by the rules that read a function's body as a sequence of statements."""
-    from .inventory import KNOWN_FUNCS
+    from .inventory import KNOWN_FUNCS, is_known
     from .calls import arg_for
     out: List[ast.stmt] = []
 
@@ -255,7 +255,7 @@ def inlined_body(res, fn, depth: int = 0) -> List[ast.stmt]:
         if ct.unresolved or ct.ctor is not None or ct.ext or len(ct.funcs) != 1:
             return None
         g = ct.funcs[0]
-        if g.is_lambda or g.qualname in KNOWN_FUNCS or g is fn:
+        if g.is_lambda or is_known(g, res.prog) or g is fn:
             return None
         body = [s for s in inlined_body(res, g, depth + 1) if not (isinstance(s, ast.Expr) and isinstance(s.value, ast.Constant))]
         rets = [n for s in body for n in walk_no_lambda(s) if isinstance(n, ast.Return)]
@@ -311,7 +311,7 @@ def inlined_body(res, fn, depth: int = 0) -> List[ast.stmt]:
 def calls_through_helpers(res, fn, pred, depth: int = 0) -> List[ast.Call]:
     """Call nodes of *fn* satisfying *pred*, plus those inside helpers outside the pinned inventory that *fn* calls
     (returned as copies with the helper's parameters replaced by the caller's argument expressions)."""
-    from .inventory import KNOWN_FUNCS
+    from .inventory import KNOWN_FUNCS, is_known
     from .calls import arg_for
     out: List[ast.Call] = []
     for n in walk_no_lambda(fn.node):
@@ -329,7 +329,7 @@ def calls_through_helpers(res, fn, pred, depth: int = 0) -> List[ast.Call]:
         if ct.unresolved or ct.ctor is not None or ct.ext or len(ct.funcs) != 1:
             continue
         g = ct.funcs[0]
-        if g.is_lambda or g.qualname in KNOWN_FUNCS or g is fn:
+        if g.is_lambda or is_known(g, res.prog) or g is fn:
             continue
         env: Dict[str, ast.expr] = {}
         for pn in g.params:
